@@ -249,6 +249,13 @@ func checkC03(c *Check) {
 	poolInsertIsFinal(c, "C03.R5")
 	// the cookie name, client id and callback the round trip relies on are those of the handler's own filter
 	handlerConfigOwn(c, "C03.R1", R)
+	// … and, with discovery, the endpoints the login is completed against are those of the discovery document
+	discoveryFillsEndpoints(c, "C03.R2")
+	// the login state written at the redirect is still there at the callback: the memory store expires a session only
+	// by the rules of C10.R1 (each limit applied only when its timeout is > 0, against its own timestamp)
+	if c.ID == "C03" {
+		importObls(c, "C10", checkC10, "C03.R2", func(o *Obligation) bool { return strings.HasPrefix(o.Key, "C10.R1/predicate") })
+	}
 
 	// ---- R4
 	n := 0
